@@ -50,6 +50,8 @@ package dcmi
 
 //@ func (*GetDCMISensorInfoRsp).DecodeFromBytes
 //@ props C05 C17
+//@ invariant 0 [sensorinfo.a] 0 <= i && i <= recordIDs && len(g.RecordIDs) == i
+//@ invariant 0 [sensorinfo.b] forall(qk, 0, i, g.RecordIDs[qk] == ipmi.RecordID(uint16(data[2+2*qk])|uint16(data[3+2*qk])<<8))
 
 // ---- get_power_reading.go
 
